@@ -28,6 +28,7 @@ import (
 	"github.com/criyle/go-sandbox/pkg/seccomp"
 	"github.com/criyle/go-sandbox/runner"
 	"github.com/criyle/go-sandbox/runner/unshare"
+	"golang.org/x/sys/unix"
 )
 
 func main() {
@@ -43,10 +44,17 @@ func main() {
 // ---------------------------------------------------------------- case / observation records
 
 type entry struct {
-	API string   `json:"api"` // bind | tmpfs | proc
+	API string   `json:"api"` // bind | tmpfs | proc (builder helpers) | raw (hand-written mount.Mount)
 	Tgt []string `json:"tgt"`
 	Src string   `json:"src"` // source id: d1.. s1.. m1.. l1.. devnull tmpfs proc
 	Ro  bool     `json:"ro"`
+	Fst string   `json:"fst"` // raw: file system type
+	Fl  []string `json:"fl"`  // raw: exactly these MS_ flags
+}
+
+var msFlags = map[string]uintptr{
+	"BIND": unix.MS_BIND, "RDONLY": unix.MS_RDONLY, "REC": unix.MS_REC, "PRIVATE": unix.MS_PRIVATE,
+	"NOSUID": unix.MS_NOSUID, "NODEV": unix.MS_NODEV, "NOEXEC": unix.MS_NOEXEC, "NOATIME": unix.MS_NOATIME,
 }
 
 type link struct {
@@ -225,7 +233,7 @@ func (e *env) prepare(c caseRec) (*caseDirs, error) {
 		return nil, err
 	}
 	for _, en := range c.Ents {
-		if en.API != "bind" {
+		if en.API != "bind" && en.API != "raw" {
 			continue
 		}
 		switch en.Src[0] {
@@ -304,6 +312,21 @@ func (e *env) builder(cd *caseDirs, c caseRec) *mount.Builder {
 			b.WithTmpfs(tgt, "")
 		case "proc":
 			b.WithProcRW(!en.Ro)
+		case "raw":
+			// a mount.Mount literal, the way a caller that does not use the helpers writes it
+			var fl uintptr
+			for _, n := range en.Fl {
+				v, ok := msFlags[n]
+				if !ok {
+					panic("unknown flag name in case: " + n)
+				}
+				fl |= v
+			}
+			src := en.Src
+			if fl&unix.MS_BIND != 0 {
+				src = e.srcPath(cd, c, en.Src)
+			}
+			b.WithMount(mount.Mount{Source: src, Target: tgt, FsType: en.Fst, Flags: fl})
 		}
 	}
 	return b.FilterNotExist()
